@@ -487,6 +487,8 @@ SHAPES = [
     ([('t = [1,  # one "', 1), ("     2]  # two '''x", 1)], ['t']),
     ([('x = 1  # path is c:\\', 1), ('y = 2', 1)], ['x', 'y']),
     ([('# only a comment \\', 1), ('y = 3', 1), ('if y:', 1), ('    z = 4  # c:\\', 1), ('    w = 5', 1)], ['y', 'z', 'w']),
+    ([('s = """a', 1), ('    ', 0), ('\t ', 0), ('  b"""', 0), ('n = len(s)', 1)], ['s', 'n']),
+    ([("s = '''x", 1), ('', 0), ('        ', 0), ("y'''", 0)], ['s']),
     ([("class K:", 1), ("    attr = 'v'", 1), ("    def m(self):", 1), ("        return self.attr", 1), ("k = K().m()", 1)], ["k"]),
 ]
 
